@@ -103,11 +103,13 @@ func TestC15Direct(t *testing.T) {
 				mark := j.Mark()
 				var ret *v1.Node
 				var err error
-				if op == "taint" {
-					ret, err = k8s.AddToBeRemovedTaint(caller, api, effect)
-				} else {
-					ret, err = k8s.DeleteToBeRemovedTaint(caller, api)
-				}
+				callTarget(rt, "C15", op, func() {
+					if op == "taint" {
+						ret, err = k8s.AddToBeRemovedTaint(caller, api, effect)
+					} else {
+						ret, err = k8s.DeleteToBeRemovedTaint(caller, api)
+					}
+				})
 				es := j.Since(mark)
 				hits := j.Disarm()
 				col.Eval(1)
